@@ -438,7 +438,10 @@ class LineOnlyReceiver(protocol.Protocol):
                 return self.lineLengthExceeded(line)
             else:
                 self.lineReceived(line)
-        if len(self._buffer) > self.MAX_LENGTH:
+        if len(self._buffer) >= self.MAX_LENGTH + len(self.delimiter):
+            # The buffer may end with a partial delimiter, so it is only
+            # certain that the line is too long once it cannot be a line of
+            # MAX_LENGTH bytes followed by an incomplete delimiter.
             return self.lineLengthExceeded(self._buffer)
 
     def lineReceived(self, line):
